@@ -380,7 +380,7 @@ func visitInstr(fr *frame, instr ssa.Instruction) continuation {
 		}
 
 	case *ssa.Lookup:
-		fr.env[instr] = lookup(instr, fr.get(instr.X), fr.get(instr.Index))
+		fr.env[instr] = fr.i.lookup(instr, fr.get(instr.X), fr.get(instr.Index))
 
 	case *ssa.MapUpdate:
 		m := fr.get(instr.Map)
@@ -389,7 +389,7 @@ func visitInstr(fr *frame, instr ssa.Instruction) continuation {
 		switch m := m.(type) {
 		case *omap:
 			fr.i.monitorWrite(m)
-			m.insert(key, v)
+			m.insert(fr.i, key, v)
 		default:
 			panic(fmt.Sprintf("illegal map type: %T", m))
 		}
